@@ -221,4 +221,4 @@ def untrace(storage):
 
 def observer(path: str, timeout=0.2):
     """A second, read-only connection: sees exactly the committed state."""
-    return sqlite3.connect(f"file:{path}?mode=ro", uri=True, timeout=timeout)
+    return sqlite3.connect(f"file:{__import__('urllib.parse').parse.quote(path)}?mode=ro", uri=True, timeout=timeout)
